@@ -15,6 +15,7 @@ for d in seeded/$pat/; do
   esac
   checks=$(echo $checks | tr ' ' '\n' | sort -u | tr '\n' ' ')
   tools/seed_run.sh $d/patch.diff quick $checks | while read line; do
+    case "$line" in BUILD-FAILURE*|"patch does not apply"*) echo -e "$s\t-\t2\t0\t0\t$line" >> $out; continue;; esac
     c=$(echo "$line" | sed -n 's/^check=\([^ ]*\) .*/\1/p'); [ -z "$c" ] && continue
     e=$(echo "$line" | sed -n 's/.*exit=\([0-9]*\).*/\1/p'); v=$(echo "$line" | sed -n 's/.*violations=\([0-9]*\).*/\1/p'); t=$(echo "$line" | sed -n 's/.*time=\([0-9]*\)s.*/\1/p')
     w=$(echo "$line" | sed -n 's/.*what: \(.*\)/\1/p' | cut -c1-160)
